@@ -149,6 +149,10 @@ def var_defs(fn, name):
             for d in n["d"]:
                 if d["n"] == name and d.get("init") is not None:
                     out.append(((s.b, s.i), fn.expand(d["init"])))
+        elif n.get("k") == "un" and n.get("op") in ("++", "--") and n["e"].get("k") == "var" and n["e"]["n"] == name:
+            out.append(((s.b, s.i), None))        # a definition whose value is not an expression of the program
+        elif n.get("k") == "asg" and n.get("op") != "=" and n["lhs"].get("k") == "var" and n["lhs"]["n"] == name:
+            out.append(((s.b, s.i), None))        # compound assignment
     # assignments nested in conditions ((aio = f()) == NULL) are their own sub-nodes of a site
     for b in fn.blocks.values():
         for i, e in enumerate(b.elems):
@@ -436,6 +440,14 @@ def edge_facts(fn):
         c = fn.cond(b.id)
         if c is None:
             continue
+        # a loop / if whose condition is `a && b` (or `a || b`) ends in a block that is also reached from the short-circuit
+        # edge of `a`; the CFG gives that block only the last operand as its condition.  The whole expression is the
+        # block's last element: its truth value is what the two edges mean.
+        if b.elems:
+            full = fn.expand(b.elems[-1])
+            if full is not None and full.get("k") == "bin" and full.get("op") in ("&&", "||") and (
+                    full["rhs"] is c or show(fn.expand(full["rhs"])) == show(c)):
+                c = full
         c = resolve(fn, c, (b.id, len(b.elems)))
         for k in (0, 1):
             for atom, val in implied_atoms(c, k == 0):
